@@ -130,6 +130,9 @@ def ecma_to_py(pattern):
             in_cls = True
         elif c == "$":
             out.append("\\Z"); i += 1; continue
+        elif c == ".":
+            # ECMA-262 `.` excludes the four line terminators, Python's only \n; `\S`/`\s` agree on the pool's probes
+            out.append("[^\\n\\r\\u2028\\u2029]"); i += 1; continue
         out.append(c); i += 1
     return "".join(out)
 
